@@ -251,6 +251,13 @@ func c05Rules(rng *rand.Rand, dir, file string) []c05Rule {
 			rs = append(rs, c05Rule{"datetime" + f, func(r *rand.Rand) string { return genDate(r, 6, s, " ", ":") }, "-/.: _0"})
 		}
 	}
+	// a comma as the one separator of date / year2month, protected by quotes (alone, with a message, with a rule behind it in the list)
+	for _, cs := range []string{",", ", ", ",-"} {
+		cs := cs
+		rs = append(rs, c05Rule{"year2month='" + cs + "'", func(r *rand.Rand) string { return genDate(r, 2, cs, "", "") }, "-/.: _0,"})
+		rs = append(rs, c05Rule{"date='" + cs + "'", func(r *rand.Rand) string { return genDate(r, 3, cs, "", "") }, "-/.: _0,"})
+		rs = append(rs, c05Rule{"date='" + cs + "'|日期 msg", func(r *rand.Rand) string { return genDate(r, 3, cs, "", "") }, "-/.: _0,"})
+	}
 	rs = append(rs, c05Rule{"year2month", func(r *rand.Rand) string { return genDate(r, 2, "-", "", "") }, "-/.: _0"})
 	rs = append(rs, c05Rule{"date", func(r *rand.Rand) string { return genDate(r, 3, "-", "", "") }, "-/.: _0"})
 	rs = append(rs, c05Rule{"datetime", func(r *rand.Rand) string { return genDate(r, 6, "-", " ", ":") }, "-/.: _0,"})
